@@ -81,6 +81,32 @@ def fallback_output_rule(chk: Check, ctx: Any, rule: str) -> None:
                    "counted without the added text, so every entry is shifted", "returned text is exactly the fallback decompiler's output", node=r)
 
 
+def resolver_tables_rule(chk: Check, ctx: Any, rule: str) -> None:
+    """OpsLabelJumpToResolver._build_end_offsets yields one end offset per routine (empty routines repeat the previous one)."""
+    f = ctx.repo.func("explorerscript.ssb_converting.decompiler.label_jump_to_resolver:OpsLabelJumpToResolver._build_end_offsets")
+    fn = f.node
+    p = astq.params_of(fn)[0]
+    loops = [n for n in walk_no_nested(fn) if isinstance(n, ast.For) and norm(n.iter) == p]
+    comps = [n for n in walk_no_nested(fn) if isinstance(n, (ast.ListComp, ast.GeneratorExp)) and norm(n.generators[0].iter) == p]
+    if loops:
+        lp = loops[0]
+        apps = [c for c in ast.walk(lp) if isinstance(c, ast.Call) and isinstance(c.func, ast.Attribute) and c.func.attr == "append"]
+        direct = [s for s in lp.body if isinstance(s, ast.Expr) and s.value in apps]
+        has_skip = any(isinstance(n, ast.Continue) for n in ast.walk(lp))
+        ok = len(apps) == 1 and len(direct) == 1 and not has_skip
+        chk.decide(rule, "resolver:end-offset-per-routine", ok, f,
+                   "the table of routine end offsets does not get exactly one entry per routine (empty/alias routines must repeat the previous offset): "
+                   "process_op_for_jump indexes it by routine id and raises IndexError outside convert()'s try block",
+                   "one end offset per routine, appended unconditionally", node=lp)
+    elif comps:
+        c0 = comps[0]
+        chk.decide(rule, "resolver:end-offset-per-routine", not c0.generators[0].ifs, f,
+                   f"`{norm(c0)[:90]}` filters routines: the end-offset table is shorter than the routine list, so jumps in routines after an alias routine "
+                   "raise IndexError before convert() reaches its try block", "one end offset per routine", node=c0)
+    else:
+        chk.unknown(rule, "resolver:end-offset-per-routine", f, "construction of the end-offset table not recognised")
+
+
 def run(chk: Check, ctx: Any) -> None:
     repo = ctx.repo
     cg = ctx.callgraph
@@ -95,6 +121,7 @@ def run(chk: Check, ctx: Any) -> None:
     chk.rule("C06-R1", "raise-set of the try body of convert() is a subset of what its fallback handler catches; AssertionError is caught")
     chk.rule("C06-R3", "the fallback prefix starts with a line that parse_exps_meta_attributes reads as is-ssb-script = true/1; all further lines are // comments; "
                        "the whole prefix (marker included) is passed to SsbScriptSsbDecompiler.convert(prefix=...) and counted into its line number")
+    chk.rule("C06-R5", "the label resolver, which runs before the try block, is total on well-formed input: one routine end offset per routine")
     chk.rule("C06-R4", "the routine ops given to the fallback decompiler are a deepcopy taken before the resolver/grapher use self._routine_ops")
 
     conv = repo.func(f"{DEC}:ExplorerScriptSsbDecompiler.convert")
@@ -197,15 +224,24 @@ def run(chk: Check, ctx: Any) -> None:
                f"the line counter starts at {norm(ln_init[0]) if ln_init else '?'}, not at prefix.count('\\n') + 1: every source map line of the fallback is shifted",
                "line counter includes the prefix lines")
 
+    # ------------------------------------------------------------------ R5 resolver table (runs before the try block)
+    resolver_tables_rule(chk, ctx, "C06-R5")
+
     # ------------------------------------------------------------------ R4 backup
     cfg = build_cfg(conv.node)
     backups = [n for n in walk_no_nested(conv.node) if isinstance(n, ast.Assign) and isinstance(n.value, ast.Call)
                and dotted(n.value.func) in ("deepcopy", "copy.deepcopy") and n.value.args and astq.self_attr(n.value.args[0]) == "_routine_ops"]
     if len(backups) != 1 or not isinstance(backups[0].targets[0], ast.Name):
         aliases = [n for n in walk_no_nested(conv.node) if isinstance(n, ast.Assign) and astq.self_attr(n.value) == "_routine_ops"]
+        ctor0 = next((c for c in ast.walk(h) if isinstance(c, ast.Call) and dotted(c.func) == "SsbScriptSsbDecompiler"), None)
+        rewritten = [s for a, _v, s in astq.self_assigns(conv.node) if a == "_routine_ops" and not any(x is s for x in ast.walk(h))]
         if aliases:
             chk.violation("C06-R4", "backup:deepcopy", conv,
                           f"`{norm(aliases[0])}` keeps an alias, not a copy: the passes rewrite the same op objects the fallback later prints", node=aliases[0])
+        elif not backups and ctor0 is not None and len(ctor0.args) >= 2 and norm(ctor0.args[1]) == "self._routine_ops" and rewritten:
+            chk.violation("C06-R4", "backup:deepcopy", conv,
+                          f"no copy of the raw ops is kept: the fallback prints self._routine_ops after `{norm(rewritten[0])[:70]}` and the graph passes "
+                          "rewrote it (label jumps with removed roots, dropped jump parameters)", node=ctor0)
         else:
             chk.unknown("C06-R4", "backup:deepcopy", conv, "deepcopy(self._routine_ops) not found exactly once")
         return
